@@ -23,6 +23,7 @@ import (
 	"strings"
 	"sync"
 	"testing"
+	"time"
 
 	"github.com/Azbesciak/RealDecisionMaker/lib/model"
 	"github.com/Azbesciak/RealDecisionMaker/lib/utils"
@@ -495,7 +496,7 @@ func register[C any](prop, name string, weight float64, gen func(t *rapid.T) C, 
 		c := gen(rt)
 		st.inc("evaluations:" + name)
 		writeCurCase(prop, name, c)
-		if f := judge(c); f != nil {
+		if f := judgeWatched(prop, name, c, judge); f != nil {
 			writeReplay(prop, name, c, f)
 			rt.Fatalf("VIOLATION-CANDIDATE property=%s check=%s rule=%s: %s", prop, name, f.Rule, f.Detail)
 		}
@@ -506,7 +507,7 @@ func register[C any](prop, name string, weight float64, gen func(t *rapid.T) C, 
 			c := gen(rt)
 			st.inc("evaluations:" + name)
 			writeCurCase(prop, name, c)
-			if f := judge(c); f != nil {
+			if f := judgeWatched(prop, name, c, judge); f != nil {
 				if os.Getenv("VERIF_SURVEY") != "" { // development aid: classify failures instead of stopping
 					d := f.Detail
 					if len(d) > 70 {
@@ -587,6 +588,26 @@ func fuzzRegistered(f *testing.F, name string) {
 	f.Fuzz(rapid.MakeFuzz(rc.property))
 }
 
+// judgeWatched runs one judge call under a watchdog. A single case normally takes well under a second; if
+// the code under test does not come back within the limit the case is saved as <prefix>-<check>-hang.json and
+// the process exits with status 3 (the driver reports the run as inconclusive and names the file) instead of
+// stalling until the run's overall time-out. Checks whose property is about answering (C20) have their own rule.
+func judgeWatched[C any](prop, name string, c C, judge func(C) *Fail) *Fail {
+	limit := time.Duration(envInt("VERIF_CASE_TIMEOUT_S", 120)) * time.Second
+	done := make(chan *Fail, 1)
+	go func() { done <- judge(c) }()
+	select {
+	case f := <-done:
+		return f
+	case <-time.After(limit):
+		writeReplayAs(prop, name, name+"-hang", c, failf("case-does-not-return", "the case did not return within %v", limit))
+		fmt.Printf("HANG property=%s check=%s: a single case did not return within %v\n", prop, name, limit)
+		st.dump()
+		os.Exit(3)
+		return nil
+	}
+}
+
 func runRegistered(t *testing.T, name string) {
 	rc, ok := registry[name]
 	if !ok {
@@ -630,14 +651,16 @@ type replayFile struct {
 	Case     json.RawMessage `json:"case"`
 }
 
-func writeReplay(prop, name string, c interface{}, f *Fail) {
+func writeReplay(prop, name string, c interface{}, f *Fail) { writeReplayAs(prop, name, name, c, f) }
+
+func writeReplayAs(prop, name, fileTag string, c interface{}, f *Fail) {
 	prefix := os.Getenv("VERIF_REPLAY_OUT")
 	if prefix == "" {
 		return
 	}
 	rf := replayFile{Property: prop, Check: name, Rule: f.Rule, Detail: f.Detail, Case: mustJSON(c)}
 	b, _ := json.MarshalIndent(rf, "", " ")
-	_ = os.WriteFile(prefix+"-"+name+".json", b, 0o644)
+	_ = os.WriteFile(prefix+"-"+fileTag+".json", b, 0o644)
 }
 
 // writeCurCase keeps the case being executed on disk (tmpfs) for checks where
